@@ -453,11 +453,15 @@ def check(prop, tier, seed, replay=None):
         graphs = {}
         for kind in KINDS_OF[prop]:
             init, adj, mc = graph(kind)
-            if tier == "thorough" or kind == KINDS_OF[prop][seed % len(KINDS_OF[prop])]:
-                res = tlc.run("TdfObjects.tla", f"MC_obj_{kind}.cfg", workers=16, coverage=False, timeout=3000)
-                if res.violation:
-                    raise common.Machinery(f"object model {kind} violates {res.violation}")
-                run.add_tlc(f"MC MC_obj_{kind}.cfg", res)
+            res = tlc.run("TdfObjects.tla", f"MC_obj_{kind}.cfg", workers=16, coverage=False, timeout=3000)
+            if res.violation:
+                raise common.Machinery(f"object model {kind} violates {res.violation}")
+            run.add_tlc(f"MC MC_obj_{kind}.cfg", res)
+            if tier == "thorough" and kind == "EMG":
+                res3 = tlc.run("TdfObjects.tla", "MC_obj_EMG3.cfg", workers=16, coverage=False, timeout=3000)
+                if res3.violation:
+                    raise common.Machinery(f"object model EMG3 violates {res3.violation}")
+                run.add_tlc("MC MC_obj_EMG3.cfg (three items, model checking only)", res3)
             st = tours.stats(adj)
             graphs[kind] = dict(nodes=st["nodes"], edges=st["edges"], exhaustive_tour=budget is None and st["edges"] < 400000)
             big = st["edges"] > 400000
